@@ -10,6 +10,11 @@ ICS_NAMES = ["a.ics", "b.ics", "c.ics", "d e.ics", "E.ICS.ics"]
 VCF_NAMES = ["c.vcf", "d.vcf", "x y.vcf"]
 UIDS = ["uid-1@example.com", "uid-2@example.com", "UID-1@example.com", "uid 3 with space",
         "uid\\,4\\;esc"]
+# further UID shapes (wire form): a long one that a serialiser folds, escapes, a backslash, non-ASCII,
+# a URN, and a long one with an escape near the fold
+UIDS_MORE = ["040000008200E00074C5B7101A82E00800000000B0C1D2E3F4A5B6C7000000000000000010000000A1B2C3D4E5F60718293A4B5C6D7E8F90",
+             "esc\\;semi\\,comma", "back\\\\slash", "\u00fcid-\u00f6-\u2603", "urn:uuid:6ba7b810-9dad-11d1-80b4-00c04fd430c8",
+             "long-" + "x" * 58 + "\\,tail-after-the-fold@example.com"]
 
 COND_CLASSES = [["cur"], ["stale"], ["other"], ["star"], ["unq"], ["garbage"],
                 ["other", "cur"], ["stale", "garbage"], ["garbage", "cur", "other"]]
@@ -73,11 +78,13 @@ def ics_pool(rng, uidheavy=False):
     """A pool of (bytes, valid) iCalendar bodies with deliberately overlapping UIDs and
     pairs that differ only in aspects a change summary could overlook."""
     pool = []
-    uids = UIDS[:3] if uidheavy else UIDS
+    # few UIDs per session (so that conflicts are frequent), drawn from all shapes
+    uids = (UIDS[:2] + rng.sample(UIDS[2:] + UIDS_MORE, 2)) if uidheavy else UIDS + rng.sample(UIDS_MORE, 1)
     for u in uids:
-        base = dict(uid=u, summary="Meeting " + u[:5])
+        tag = "".join(ch for ch in u if ch.isalnum())[:5]     # (never cut an escape sequence in two)
+        base = dict(uid=u, summary="Meeting " + tag)
         pool.append(gamma.ics_event(**base))
-        pool.append(gamma.ics_event(u, "Other text " + u[:5], dtstart="20200105T100000Z",
+        pool.append(gamma.ics_event(u, "Other text " + tag, dtstart="20200105T100000Z",
                                     dtend="20200105T120000Z"))
         # differs from the first only in SEQUENCE / a parameter / a nested alarm / DTSTAMP-like
         pool.append(gamma.ics_event(extra=("SEQUENCE:1",), **base))
